@@ -20,7 +20,14 @@ pub fn stub_clean_squitter(_line: &str) -> Option<Vec<u32>> {
     }
 }
 
-pub fn offer14(m: &[u32; 14]) -> Option<Vec<u32>> {
+pub /// `reminder()` (an always-zero legacy filter in get_message) is cut in the 112-bit harnesses: its
+/// Vec<u8> juggling next to CRC-88 exhausts memory. The lemmas `lemma_reminder_is_zero_*` decide
+/// separately that it returns 0 for every frame, so the cut does not change get_message.
+pub fn stub_reminder(_m: &[u32]) -> u32 {
+    0
+}
+
+fn offer14(m: &[u32; 14]) -> Option<Vec<u32>> {
     unsafe {
         let mut i = 0;
         while i < 14 {
@@ -91,6 +98,7 @@ fn same28(v: &Vec<u32>, m: &[u32; 28]) -> bool {
 #[cfg_attr(kani, kani::proof)]
 #[cfg_attr(kani, kani::unwind(113))]
 #[cfg_attr(kani, kani::stub(crate::decoder::utils::format::clean_squitter, stub_clean_squitter))]
+#[cfg_attr(kani, kani::stub(crate::decoder::utils::crc::reminder, stub_reminder))]
 #[cfg_attr(verif_replay, test)]
 fn c04_parity_df17() {
     let m = frame28();
@@ -110,6 +118,7 @@ fn c04_parity_df17() {
 #[cfg_attr(kani, kani::proof)]
 #[cfg_attr(kani, kani::unwind(113))]
 #[cfg_attr(kani, kani::stub(crate::decoder::utils::format::clean_squitter, stub_clean_squitter))]
+#[cfg_attr(kani, kani::stub(crate::decoder::utils::crc::reminder, stub_reminder))]
 #[cfg_attr(verif_replay, test)]
 fn c04_parity_df18() {
     let m = frame28();
@@ -162,6 +171,7 @@ fn c02_frame_rule_short() {
 #[cfg_attr(kani, kani::proof)]
 #[cfg_attr(kani, kani::unwind(113))]
 #[cfg_attr(kani, kani::stub(crate::decoder::utils::format::clean_squitter, stub_clean_squitter))]
+#[cfg_attr(kani, kani::stub(crate::decoder::utils::crc::reminder, stub_reminder))]
 #[cfg_attr(verif_replay, test)]
 fn c02_frame_rule_long() {
     let m = frame28();
@@ -175,4 +185,26 @@ fn c02_frame_rule_long() {
     if let Some(v) = got {
         vassert!(same28(&v, &m), "C02: accepted frame differs from the digits offered");
     }
+}
+
+// @harness props=C02,C04,C01 tier=quick cap=1200
+// lemma: the legacy filter reminder() returns 0 for every 112-bit frame (so cutting it is sound)
+#[cfg_attr(kani, kani::proof)]
+#[cfg_attr(kani, kani::unwind(30))]
+#[cfg_attr(verif_replay, test)]
+fn lemma_reminder_is_zero_long() {
+    let m = frame28();
+    vcover!(bits(&m, 1, 5) == 17, "a DF17");
+    vassert!(reminder(&m) == 0, "lemma: reminder() is not the always-zero filter the harnesses assume");
+}
+
+// @harness props=C02,C04,C01 tier=quick cap=900
+// lemma: reminder() returns 0 for every 56-bit frame
+#[cfg_attr(kani, kani::proof)]
+#[cfg_attr(kani, kani::unwind(30))]
+#[cfg_attr(verif_replay, test)]
+fn lemma_reminder_is_zero_short() {
+    let m = frame14();
+    vcover!(bits(&m, 1, 5) == 11, "a DF11");
+    vassert!(reminder(&m) == 0, "lemma: reminder() is not the always-zero filter the harnesses assume");
 }
